@@ -213,7 +213,7 @@ for tree in ("deep", "nestedprefix", "deeper"):
                 for s in mods:
                     if "." in s and not s.startswith(p + ".") and s != p and not p.startswith(s + "."):
                         arch = build_arch(mods, [(s, c)])
-                        for kinds in (("sub", "sub"), ("name", "sub"), ("sub", "name")):
+                        for kinds in (("sub", "sub"), ("name", "name")):
                             for O in ([(kinds[0], p), (kinds[1], c)], [(kinds[1], c), (kinds[0], p)]):
                                 for verb, imp, exc in SHAPES:
                                     res.append(outcome(make_rule([("name", s)], verb, imp, exc, O), arch))
